@@ -211,7 +211,11 @@ def rand_mentions(rng, syntax, q):
         names = [n for n in NAMES if n != 'class']
     else:
         names = NAMES
-    for i in range(rng.randint(1, 10)):
+    count = rng.randint(1, 10) if rng.random() < 0.9 else rng.randint(11, 40)
+    if count > 10:
+        # wide elements: many DISTINCT names (thresholds of lookup structures), later ones repeated
+        names = names + ['n%d' % k for k in range(rng.choice([4, 12, 20, 30]))]
+    for i in range(count):
         r = rng.random()
         if r < 0.2 and 'class' in names:
             ms.append({'k': 'short', 'n': 'class', 'v': rng.choice(['c1', 'c2', 'c-3', 'c_4', 'C5'])})
